@@ -162,22 +162,34 @@ def mock_key(pkg, it):
     return "%s.%s" % (pkg["name"], struct_name(pkg, it))
 
 
-def build_module(ctx, pkgs, tag="mod"):
-    """Write the scratch module, run the freshly built mockery on it, build the driver.  Returns (binary, error)."""
+def build_module(ctx, pkgs, tag="mod", driver="drv_matryer", race=False):
+    """Write the scratch module, run the freshly built mockery on it, build the driver.  Returns (binary, error).
+    pkg["level"] = "package" (default): template-data under the package's config;  "interface": the same
+    template-data under every interface's own config (the most specific level) and nothing at package level.
+    pkg["template"] = "matryer" (default) | "testify"."""
     mod = ctx.scratch / tag
     shutil.rmtree(mod, ignore_errors=True)
     (mod / "drv").mkdir(parents=True)
     (mod / "go.mod").write_text("module %s\n\ngo 1.23\n\nrequire github.com/stretchr/testify v1.10.0\n" % MOD)
     shutil.copy(REPO / "go.sum", mod / "go.sum")
-    cfg = ["template: matryer", "filename: mocks_matryer.go", 'pkgname: "{{.SrcPackageName}}"', 'dir: "{{.InterfaceDir}}"',
+    cfg = ["template: matryer", "filename: mocks_gen.go", 'pkgname: "{{.SrcPackageName}}"', 'dir: "{{.InterfaceDir}}"',
            "force-file-write: true", "packages:"]
     reg = ["package main", "", "import ("]
     for pkg in pkgs:
         (mod / pkg["name"]).mkdir()
         (mod / pkg["name"] / "iface.go").write_text(render_pkg(pkg))
-        cfg += ["  %s/%s:" % (MOD, pkg["name"]), "    config:", "      all: true",
-                '      structname: "%s"' % (pkg["structpat"] % "{{.InterfaceName}}"), "      template-data:"]
-        cfg += ["        %s: %s" % (k, "true" if v else "false") for k, v in sorted(pkg["opts"].items())]
+        td = ["%s: %s" % (k, "true" if v else "false") for k, v in sorted(pkg["opts"].items())]
+        cfg += ["  %s/%s:" % (MOD, pkg["name"]), "    config:",
+                "      template: %s" % pkg.get("template", "matryer"),
+                '      structname: "%s"' % (pkg["structpat"] % "{{.InterfaceName}}")]
+        if pkg.get("level", "package") == "package":
+            cfg += ["      all: true"]
+            if td:
+                cfg += ["      template-data:"] + ["        " + x for x in td]
+        else:
+            cfg += ["    interfaces:"]
+            for it in pkg["ifaces"]:
+                cfg += ["      %s:" % it["name"], "        config:", "          template-data:"] + ["            " + x for x in td]
         reg.append('\t%s "%s/%s"' % (pkg["name"], MOD, pkg["name"]))
     reg += [")", "", "func init() {"]
     for pkg in pkgs:
@@ -187,12 +199,12 @@ def build_module(ctx, pkgs, tag="mod"):
     reg.append("}")
     (mod / ".mockery.yml").write_text("\n".join(cfg) + "\n")
     (mod / "drv" / "registry.go").write_text("\n".join(reg) + "\n")
-    shutil.copy(VERIF / "harness" / "go" / "drv_matryer" / "main.go", mod / "drv" / "main.go")
+    shutil.copy(VERIF / "harness" / "go" / driver / "main.go", mod / "drv" / "main.go")
     env = go_env({"GOFLAGS": "-mod=mod"})
     p = run([ctx.bins["mockery"]], cwd=mod, env=env, timeout=600)
     if p.returncode != 0:
         return None, "mockery failed: " + (p.stdout + p.stderr).decode(errors="replace")[-3000:]
-    p = run(["go", "build", "-o", str(mod / "drv.bin"), "./drv"], cwd=mod, env=env, timeout=900)
+    p = run(["go", "build"] + (["-race"] if race else []) + ["-o", str(mod / "drv.bin"), "./drv"], cwd=mod, env=env, timeout=1800)
     if p.returncode != 0:
         return None, "generated mocks or driver do not compile: " + p.stderr.decode(errors="replace")[-3000:]
     return str(mod / "drv.bin"), None
@@ -410,6 +422,7 @@ def case_term(c, outs):
 def describe(c, outs=None):
     it = c["iface"]
     d = {"mock": mock_key(c["pkg"], it), "template-data": c["pkg"]["opts"],
+         "template-data-set-at": c["pkg"].get("level", "package") + " level",
          "interface": [x for x in render_pkg(dict(c["pkg"], ifaces=[it])).split("\n") if x.strip()][3:],
          "history": [json.dumps(o, sort_keys=True) for o in c["hist"]]}
     if outs is not None:
@@ -423,7 +436,11 @@ COMBOS = [{"skip-ensure": a, "stub-impl": b, "with-resets": c} for a in (False, 
 
 def corpus_pkgs():
     f = VERIF / "corpus" / "C04" / "cases.json"
-    return json.loads(f.read_text()) if f.exists() else []
+    cs = json.loads(f.read_text()) if f.exists() else []
+    for c in cs:
+        for m in c["iface"]["methods"]:
+            m.setdefault("resolved", resolved_names(m))
+    return cs
 
 
 def shrink(binary, c, fails):
@@ -446,13 +463,17 @@ def check(ctx, only=None):
     if only is not None:
         pkgs = []
         for j, c in enumerate(only):
+            for m in c["iface"]["methods"]:
+                m.setdefault("resolved", resolved_names(m))
             c["pkg"] = dict(c["pkg"], name="p%d" % j, ifaces=[c["iface"]])
             pkgs.append(c["pkg"])
         cases = only
     else:
-        reps = 6 if ctx.thorough() else 3
+        reps = 8 if ctx.thorough() else 4
         pkgs = [gen_pkg(ctx.rng, i, COMBOS[i % 8]) for i in range(8 * reps)]
-        nh, hl = (12, 60) if ctx.thorough() else (3, 40)
+        for pkg in pkgs[8 * (reps - 1):]:      # one full set of combinations configured per interface (most specific level)
+            pkg["level"] = "interface"
+        nh, hl = (12, 60) if ctx.thorough() else (4, 40)
         cases = []
         for c in corpus_pkgs():
             j = len(pkgs)
@@ -505,10 +526,12 @@ def check(ctx, only=None):
         return any(x["k"] == "records" and len(x["l"]) >= 2 for x in o)
     distinct = len({json.dumps([mock_term(c["pkg"], c["iface"]), c["hist"]], sort_keys=True) for c, o in zip(cases, outs) if nontrivial(o)})
     hist = {"ops": {}, "outcomes": {}, "params_per_method": {}, "results_per_method": {}, "param_style": {}, "options": {},
-            "types": {}, "variadic_methods": 0, "generic_interfaces": 0, "methods": 0, "interfaces": 0}
+            "types": {}, "option_level": {}, "variadic_methods": 0, "generic_interfaces": 0, "methods": 0, "interfaces": 0}
     for pkg in pkgs:
         key = ",".join(k for k, v in sorted(pkg["opts"].items()) if v) or "none"
         hist["options"][key] = hist["options"].get(key, 0) + 1
+        lv = pkg.get("level", "package")
+        hist["option_level"][lv] = hist["option_level"].get(lv, 0) + 1
         for it in pkg["ifaces"]:
             hist["interfaces"] += 1
             hist["generic_interfaces"] += it["generic"]
